@@ -1,6 +1,7 @@
 package main
 
 import (
+	"sort"
 	"context"
 	"fmt"
 	"sync"
@@ -266,6 +267,27 @@ func runC13(c *Ctx) {
 		r := &listerRun{P: p, L: l, D: d, total: 10 * (p + l + d)}
 		runLister(c, r)
 		check(r, fmt.Sprintf("random P=%v L=%v D=%v", p, l, d))
+	}
+	// degenerate periods: zero (relist as soon as the previous result was
+	// consumed) and a few nanoseconds; what limits the rate is the list latency
+	for _, p := range []time.Duration{0, 1, time.Microsecond} {
+		for _, d := range []time.Duration{0, 50 * time.Millisecond} {
+			r := &listerRun{P: p, L: 100 * time.Millisecond, D: d, total: 3 * time.Second}
+			runLister(c, r)
+			// with a period of (almost) nothing the consumption of a result and
+			// the start of the next list carry the same virtual timestamp, and
+			// the order in which two goroutines wrote them down means nothing:
+			// at equal times the causal order is end, consumed, start (a list
+			// and its own end never tie here: the latency is 100 ms)
+			rank := map[int]int{1: 0, 2: 1, 0: 2}
+			sort.SliceStable(r.trace, func(a, b int) bool {
+				if r.trace[a].at != r.trace[b].at {
+					return r.trace[a].at < r.trace[b].at
+				}
+				return rank[r.trace[a].kind] < rank[r.trace[b].kind]
+			})
+			check(r, fmt.Sprintf("degenerate period P=%v L=%v D=%v", p, r.L, d))
+		}
 	}
 	// the ticker in isolation: in virtual time the delay before a tick IS
 	// nextPeriod().  Theorem C13_next_period_ns (binary64, Flocq): an integer
